@@ -22,7 +22,7 @@ STRUCT = ('mod ', 'tslot ', 'rem ', 'cb ', 'proc ', 'endproc', 'pipecap ')
 class CoreCheck(Check):
     driver = 'drv_core'
     driver_srcs = CORE_SRCS
-    driver_flags = ('-DLIBMODULE_LOG_CTX=CORE', '-Wl,--wrap=epoll_wait,--wrap=timerfd_settime,--wrap=close,--wrap=m_mem_new,--wrap=pipe')
+    driver_flags = ('-DLIBMODULE_LOG_CTX=CORE', '-Wl,--wrap=epoll_wait,--wrap=timerfd_settime,--wrap=close,--wrap=m_mem_new,--wrap=pipe,--wrap=pthread_join')
     driver_libs = ('-lpthread', '-ldl')
     model = 'core'
     trusted = TRUSTED
